@@ -7,7 +7,8 @@
 (*     streams with explicit / omitted last chunkSize, two chunks in one    *)
 (*     stream (innerOffset), one chunk appended to the previous file's      *)
 (*     stream), a digest profile, an attribute profile and a spelling of    *)
-(*     its name ("a", "./a", "../a", "a/").  AddEntry is the only action;   *)
+(*     its name ("a", "./a", "../a", "a/", and with inner / trailing dot       *)
+(*     elements: "a/.", "a/zz/..", "a/./b", "a//b", "a/b/../b").  AddEntry is the only action;   *)
 (*     every reachable state whose hard links resolve is one TOC.           *)
 (* (b) the REFERENCE SEMANTICS as operators over a TOC L: the set of paths  *)
 (*     (explicit + implicit parents), identity of nodes (hard links),       *)
@@ -59,6 +60,15 @@ Rank(p) == CASE p = "/" -> 1 [] p = "/a" -> 2 [] p = "/a/b" -> 3 [] p = "/a/b/c"
 
 Max(S) == CHOOSE x \in S : \A y \in S : y <= x
 Half(n) == n \div 2
+Min(a, b) == IF a < b THEN a ELSE b
+
+(* "many chunks" layouts: n chunks of ChunkLen bytes, each in its own gzip stream. 40-byte chunks give chunk      *)
+(* offsets 40*k whose zig-zag varint encodings (keys of the db store's chunksExtra bucket) do not sort like the   *)
+(* numbers; "m9k" crosses the 2->3 byte boundary (8192) as well.                                                  *)
+ManyLays == {"m3", "m10", "m12", "m9k"}
+ChunkLen(y) == IF y = "m9k" THEN 2100 ELSE 40
+ManyCount(y) == CASE y = "m3" -> 3 [] y = "m10" -> 10 [] y = "m12" -> 12 [] OTHER -> 9
+ManySize(y) == ChunkLen(y) * ManyCount(y)
 
 -----------------------------------------------------------------------------
 (* (b) reference semantics over a TOC L (sequence of logical entries) *)
@@ -119,6 +129,7 @@ LayAfter(L, i) ==
             ELSE CASE e.lay = "one" -> [n |-> prev.n + 1, len |-> e.sz]
                    [] e.lay \in {"two", "twoz"} -> [n |-> prev.n + 2, len |-> e.sz - Half(e.sz)]
                    [] e.lay = "inner" -> [n |-> prev.n + 1, len |-> e.sz]
+                   [] e.lay \in ManyLays -> [n |-> prev.n + ManyCount(e.lay), len |-> ChunkLen(e.lay)]
                    [] OTHER -> [n |-> prev.n, len |-> prev.len + e.sz]       \* "share"
 
 (* chunk table of entry i: co/cs = chunkOffset/chunkSize, st = stream, io = innerOffset, k = ordinal *)
@@ -135,6 +146,9 @@ ChunksOf(L, i) ==
               [] e.lay = "inner" ->
                     << [k |-> 1, co |-> 0, cs |-> h, st |-> prev.n + 1, io |-> 0],
                        [k |-> 2, co |-> h, cs |-> e.sz - h, st |-> prev.n + 1, io |-> h] >>
+              [] e.lay \in ManyLays ->
+                    [k \in 1..ManyCount(e.lay) |->
+                        [k |-> k, co |-> (k - 1) * ChunkLen(e.lay), cs |-> ChunkLen(e.lay), st |-> prev.n + k, io |-> 0]]
               [] OTHER -> << [k |-> 1, co |-> 0, cs |-> e.sz, st |-> prev.n, io |-> prev.len] >>
 
 DgLabel(L, i, c, n) ==         \* "D<i>" = digest of the whole file of entry i, "C<i>.<k>" = of its k-th chunk
@@ -149,10 +163,20 @@ ChunkAt(L, i, o) ==
     IN IF hit = {} THEN [ok |-> FALSE, co |-> 0, cs |-> 0, dg |-> ""]
        ELSE LET c == cs[CHOOSE k \in hit : TRUE]
             IN [ok |-> TRUE, co |-> c.co, cs |-> c.cs, dg |-> DgLabel(L, i, c, Len(cs))]
-ChunkTable(L, i) == [o \in 1..(L[i].sz + 1) |-> ChunkAt(L, i, o - 1)]
+(* offsets at which a file is probed: every offset 0..size of a small file; of a larger one 21 evenly spaced     *)
+(* offsets, the offset just before each of them, and the size (the Go driver uses the same rule)                   *)
+ProbeSeq(sz) ==
+    IF sz <= 64 THEN [j \in 1..(sz + 1) |-> j - 1]
+    ELSE LET step == sz \div 20 IN
+         [j \in 1..43 |-> IF j = 43 THEN sz
+                          ELSE IF j % 2 = 1 THEN ((j - 1) \div 2) * step
+                          ELSE Min(sz, ((j - 1) \div 2) * step + step - 1)]
+ChunkTable(L, i) == [j \in DOMAIN ProbeSeq(L[i].sz) |-> ChunkAt(L, i, ProbeSeq(L[i].sz)[j])]
 
-ByteOf(i, j) == 97 + (i - 1) * 4 + j          \* byte j (from 0) of the file of entry i
+ByteOf(i, j) == 97 + (i - 1) * 4 + (j % 23)   \* byte j (from 0) of the file of entry i
 BytesOf(L, i) == [j \in 1..L[i].sz |-> ByteOf(i, j - 1)]
+ReadTable(L, i) == [j \in DOMAIN ProbeSeq(L[i].sz) |->     \* one byte read at each probed offset; -2 = not read (offset = size)
+                       IF ProbeSeq(L[i].sz)[j] < L[i].sz THEN ByteOf(i, ProbeSeq(L[i].sz)[j]) ELSE 0 - 2]
 OffsetOf(L, i) == IF HasData(L[i]) THEN ChunksOf(L, i)[1].st ELSE 0
 
 (* chunks some read of file i hands to the pre-read callback: every other chunk of a stream file i has a chunk in *)
@@ -183,7 +207,9 @@ LinkTargets(p) ==
         ELSE AllowLinkFirst /\ \A i \in DOMAIN toc : q \notin Anc(toc[i].p)}
 
 LaysFor(sz) ==
-    {y \in Lays : /\ y \in {"two", "twoz", "inner"} => sz >= 2
+    {y \in Lays : /\ (y \in {"two", "twoz", "inner"} => (sz >= 2 /\ sz <= 64))
+                  /\ (y \in ManyLays => sz = ManySize(y))
+                  /\ (y \in {"one", "share"} => sz <= 64)
                   /\ y = "share" => (sz >= 1 /\ Len(toc) > 0 /\ HasData(toc[Len(toc)]))}
 DigsFor(y) == {d \in Digs : d = "file" => y \in {"one", "share"}}
 
@@ -194,7 +220,9 @@ AddEntry ==
     /\ \E p \in EPaths, t \in ETypes :
         /\ StructOK(p, t)
         /\ \E tgt \in (IF t = "hardlink" THEN LinkTargets(p) ELSE {""}) :
-           \E sp \in Feat({s \in Spells : (s = "slash" => t = "dir") /\ (p = "/" => s \in {"plain", "slash", "dot"})}, "plain"),
+           \E sp \in Feat({s \in Spells : /\ (s = "slash" => t = "dir")
+                                             /\ (p = "/" => s \in {"plain", "slash", "dot"})
+                                             /\ (s \in {"idot", "dslash", "updown"} => p \in {"/a/b", "/a/b/c"})}, "plain"),
               at \in (IF t = "hardlink" THEN {"z"} ELSE Feat(Attrs, "z")),
               sz \in (IF t = "reg" THEN Feat(Sizes, 1) ELSE {0}) :
            \E lay \in (IF t = "reg" /\ sz > 0 THEN Feat(LaysFor(sz), "one") ELSE {"one"}) :
